@@ -210,6 +210,11 @@ func (s *ServiceStmt) Format(prefix ...string) string {
 	serviceNode := transferTokenNode(s.Service, withTokenNodePrefix(prefix...))
 	w.Write(withNode(serviceNode, s.Name, s.LBrace), expectSameLine())
 	if len(s.Routes) == 0 {
+		// a comment in front of the closing brace must not share the line of the opening one,
+		// a line comment would swallow the brace on the next pass.
+		if s.RBrace.HasHeadCommentGroup() {
+			w.NewLine()
+		}
 		w.Write(withNode(transferTokenNode(s.RBrace, withTokenNodePrefix(prefix...))))
 		return w.String()
 	}
